@@ -54,10 +54,19 @@ func init() {
 		FollowUps: kv.FollowUps,
 	}
 	c05r := c05
-	c05r.Profile = heavy(2, 6, kv.KDelete, kv.KRemove, kv.KUpdate, kv.KDeleteWX, kv.KWriteTomb, kv.KDelMeta, kv.KAdd, kv.KWriteCas, kv.KWriteRes, kv.KSetX, kv.KUpdateX).With(kv.KPurge, 2)
+	c05r.Profile = heavy(2, 6, kv.KDelete, kv.KRemove, kv.KUpdate, kv.KDeleteWX, kv.KWriteTomb, kv.KDelMeta, kv.KAdd, kv.KWriteCas, kv.KWriteRes, kv.KSetX, kv.KUpdateX).With(kv.KPurge, 4)
 	c05r.Steps = 60
 	c05r.SweepEvery = 15
 	c05r.ExtraEvery = func(s *kv.Sim, i int) {
+		if i == 0 {
+			// view indexes exist and are kept up to date: their rows must not stand in the way of PurgeTombstones
+			for ci := 0; ci < 2; ci++ {
+				_ = s.PutViews(0, ci, kv.ViewSet(false))
+			}
+		}
+		if i%5 == 4 {
+			_, _ = s.ViewRows(0, (i/5)%2, "all", map[string]any{}, false)
+		}
 		if i%15 == 14 {
 			dumpSweep(s)
 			s.JudgeQueries(0, (i/15)%2) // a query is an observer too: no row for a key without a body
